@@ -51,7 +51,8 @@ FR = ["Foo v. Bar, 1 U.S. 1 (1999)", "2 F.2d 3, 5", "Id. at 5", "Foo, supra, at 
       "Bankr. L. Rep. (CCH) ¶12,345", "Ibid.", "§§ 1-2", "cert. denied", "1 Thompson 5", "T.C. Memo. 2019-233",
       "Peña v. Doe, 5 Cal. 4th 6", "Shapiro v. Thompson, 394 U. S. 618", "2 P.R. 3 (1831)", "1 Wash. 1",
       "supra,§,", "1 CCH Unemployment Ins. Rep. 1", "550 U.S., at 556", "3 Cranch 137"]
-PROBES = ["See Pub. L. No. 94-553 §§ 1-2 and more.", "“1 U.S. 1”", "é1 U.S. 1", "1 U.S. 1é", "see—Id. at 5—ok", "1 U.S. 1 “ 2 F.2d 3", "x § 5 y", "¶12,345"]
+PROBES = ["See Pub. L. No. 94-553 §§ 1-2 and more.", "Halper v. Taney, 1999; Taney ___ (1999)",
+          "1 CCH Unemployment Ins. Rep. 1\n1 CCH Unemployment Ins. Rep. 1\n", "“1 U.S. 1”", "é1 U.S. 1", "1 U.S. 1é", "see—Id. at 5—ok", "1 U.S. 1 “ 2 F.2d 3", "x § 5 y", "¶12,345"]
 
 
 def plan(tier, seed):
@@ -73,6 +74,8 @@ def classify(v):
         o = v.get("observed") or {}
         if o.get("pattern_has_multibyte_in_class") and "§" in ((o.get("token") or {}).get("data") or ""):
             return "multibyte-char-in-character-class"
+        if o.get("hyperscan_has_longer_match_with_same_end"):
+            return "leftmost-start-reporting"
         if o.get("touches_multibyte"):
             return "hyperscan-multibyte-adjacent"
     if v.get("monitor") == "C14.citations_differ":
@@ -204,8 +207,11 @@ def compare_doc(text, rec, ref, hs, by_type):
             rec.count("candidate_outside_domain_skipped")
             continue
         if k not in H:
+            twin = any(type(y) is type(x) and y.end == x.end and y.start < x.start
+                       and str(y) == text[y.start:x.end] for y in H.values())
             rec.violation("C14.missing_in_hyperscan", case,
                           observed=dict(token=M.ser_token(x), touches_multibyte=touches,
+                                        hyperscan_has_longer_match_with_same_end=twin,
                                         pattern_has_multibyte_in_class=multibyte_class_pattern(text, x, by_type),
                                         context=text[max(0, x.start - 3):x.end + 3]))
     if mb_neighbour:
